@@ -185,6 +185,7 @@ from bare_script import parse_script, execute_script
 from bare_script.runtime import BareScriptRuntimeError
 from bare_script.options import url_file_relative
 from vf.hlib.refvm import RefVM
+from vf.hlib.util import norm_error
 
 SRC = {src!r}
 FS = {fs!r}
@@ -206,7 +207,7 @@ def run_real(limit, m):
     try:
         r = ('ok', execute_script(MODEL, opts))
     except BareScriptRuntimeError as e:
-        r = ('err', str(e))
+        r = ('err', norm_error(e))
     return r, tr, opts['statementCount']
 
 
@@ -223,7 +224,7 @@ def run_real_reused(limit, m):
         try:
             r = ('ok', execute_script(MODEL, opts))
         except BareScriptRuntimeError as e:
-            r = ('err', str(e))
+            r = ('err', norm_error(e))
     return r, tr, opts['statementCount']
 
 
@@ -237,7 +238,7 @@ def run_ref(limit, m):
     try:
         r = ('ok', vm.run(MODEL))
     except BareScriptRuntimeError as e:
-        r = ('err', str(e))
+        r = ('err', norm_error(e))
     return r, tr, vm.count
 
 
@@ -266,7 +267,7 @@ def core_budget(limit, m={m!r}):
                 info.update(clause='limit >= N must behave as unlimited', real=repr(real)[:400], unlimited=repr(full)[:400])
                 return False, info
         else:
-            ok = (real[0] == ('err', 'Exceeded maximum script statements (' + str(limit) + ')') and real[2] == limit + 1
+            ok = (real[0] == ('err', 'Exceeded maximum script statements') and real[2] == limit + 1
                   and real[1] == full[1][:len(real[1])] and all(c <= limit for _, c in real[1]))
             if not ok:
                 info.update(clause='limit < N: abort exactly at statement limit+1, effects a prefix', real=repr(real)[:400],
